@@ -437,7 +437,35 @@ impl VirtualSystem {
                 let mut inode = Inode::new([]);
                 inode.permissions = mode.difference(umask);
                 let inode = Rc::new(RefCell::new(inode));
-                state.file_system.save(&path, Rc::clone(&inode))?;
+                // `FileSystem::save` does not accept `.` and `..` components.
+                // They can be removed lexically once the directory they are
+                // relative to is known to exist.
+                let has_dots = path.components().any(|component| {
+                    matches!(
+                        component,
+                        crate::path::Component::CurDir | crate::path::Component::ParentDir
+                    )
+                });
+                if has_dots {
+                    let parent = path.parent().ok_or(Errno::ENOENT)?;
+                    let parent = state.file_system.get(parent)?;
+                    if !matches!(parent.borrow().body, FileBody::Directory { .. }) {
+                        return Err(Errno::ENOTDIR);
+                    }
+                    let mut normalized = PathBuf::new();
+                    for component in path.components() {
+                        match component {
+                            crate::path::Component::CurDir => (),
+                            crate::path::Component::ParentDir => {
+                                normalized.pop();
+                            }
+                            other => normalized.push(other.as_unix_str()),
+                        }
+                    }
+                    state.file_system.save(&normalized, Rc::clone(&inode))?;
+                } else {
+                    state.file_system.save(&path, Rc::clone(&inode))?;
+                }
                 inode
             }
             Err(errno) => return Err(errno),
